@@ -292,6 +292,8 @@ def nuts_chain_run(ctx, nc, nd):
     sp = b['sp']
     steps = ev.events(lambda e: e.key == 'nuts::NUTSChain::step')
     loops = [ls for ls in ev.vf.loops if ls.kind == 'for' and not ls.ctx and any(e in ls.events for e in steps)]      # the loop that steps the chain (wherever it is written)
+    if len(loops) == 2 and len(steps) == 2 and nuts_two_phase(ctx, A, ev, sorted(loops, key=lambda l_: l_.uid), steps, nc, nd, sp):
+        return
     if len(loops) != 1 or len(steps) != 1:
         for o in ('row0', 'count', 'step_once', 'guard_row_value'):
             ctx.unknown('C09.nuts_run.' + o, A, o, why='expected one run loop with one step (found %d loops, %d step sites)' % (len(loops), len(steps)), sp=sp)
@@ -323,6 +325,51 @@ def nuts_chain_run(ctx, nc, nd):
     # n_discard forwarded to the chain (adaptation window) in order
     ctx.check('C09.fwd.nuts_init', A, 'fwd', contains(ev.t(ls.init[sk[0]]), T.app('set:n_discard', nd)) and contains(ev.t(ls.init[sk[0]]), T.app('set:n_collect', nc)),
               expected='init_chain receives (n_collect, n_discard) in this order', found='…', sp=sp, why='swapped arguments change the warm-up length')
+
+
+def nuts_two_phase(ctx, A, ev, loops, steps, nc, nd, sp):
+    """the same run written as a warm-up loop over m in 1..n_discard (steps only) and a collection loop over m in max(n_discard, 1)..
+    n_collect + n_discard (step, then store at row m - n_discard): the same transitions and rows as the single loop over
+    1..n_collect + n_discard with the store guarded by m >= n_discard (row 0 is the position at entry when n_discard = 0).
+    Returns False when the two loops are not of that shape (the caller then reports the single-loop obligations as not established)."""
+    l1, l2 = loops
+    STEPK = 'nuts::NUTSChain::step'
+
+    def once(ls):
+        ins = [e for e in steps if e in ls.events]
+        sk = [k for k in ls.lh if keyrepr(k) == 'self']
+        ok = len(ins) == 1 and not ins[0].pc and len(sk) == 1 and ls.next[sk[0]] is T.app('post0', T.app(STEPK, ls.lh[sk[0]])) and not ls.exits
+        return ok, (sk[0] if sk else None)
+    ok1, s1 = once(l1)
+    ok2, s2 = once(l2)
+    if not (ok1 and ok2) or l2.init[s2] is not l1.lx[s1] or carried_keys(l1) != [s1]:
+        return False
+    total = T.add(nc, nd)
+    start2 = T.app('max', *sorted([nd, T.ONE], key=T.key))
+    m2 = ev.t(l2.elem)
+    okcount = l1.n is T.sub(nd, T.ONE) and ev.t(l1.elem) is T.add(l1.var, T.ONE) and l2.n is T.sub(total, start2) and m2 is T.add(start2, l2.var)
+    ctx.check('C09.nuts_run.count', A, 'count', okcount, expected='for m in 1..n_discard (steps only), then for m in max(n_discard, 1)..n_collect+n_discard',
+              found='n=%s from %s; n=%s from %s' % (show(l1.n), show(ev.t(l1.elem)), show(l2.n), show(m2)), sp=l1.sp, why='n_collect + n_discard - 1 transitions: the first kept draw is the last warm-up state')
+    ctx.ok('C09.nuts_run.step_once', A, 'step', expected='one unconditional self.step() per iteration of either loop (in place), the second loop continuing from the first', found='two-phase form', sp=l2.sp,
+           why='each iteration performs one transition of the chain itself')
+    outs = [k for k in carried_keys(l2) if k is not s2]
+    if len(outs) != 1:
+        ctx.unknown('C09.nuts_run.guard_row_value', A, 'store', why='sample buffer not identified', sp=l2.sp)
+        return True
+    o = outs[0]
+    pos0 = fld(S('self'), 'position')
+    dim = index_term(T.app('dims', pos0), N(0))
+    post = T.app('post0', T.app(STEPK, l2.lh[s2]))
+    r = T.sub(m2, nd)
+    exp = T.app('slice_assign', l2.lh[o], T.app('array', T.app('range', r, T.add(r, T.ONE)), T.app('range', N(0), dim)), T.app('unsqueeze', fld(post, 'position')))
+    ctx.eq('C09.nuts_run.guard_row_value', A, 'store', l2.next[o], exp, sp=l2.sp, why='every collection iteration m >= n_discard stores at row m - n_discard the position after its step')
+    row0 = T.app('slice_assign', T.app('empty_t', T.app('array', nc, dim), S('default:<B as burn::prelude::Backend>::Device')),
+                 T.app('array', T.app('range', N(0), N(1)), T.app('range', N(0), dim)), T.app('unsqueeze', pos0))
+    ctx.eq('C09.nuts_run.row0', A, 'row0', l2.init[o], row0, sp=sp, why='row 0 is pre-filled with the position at entry (kept only when n_discard = 0, otherwise overwritten at m = n_discard)')
+    ctx.eq('C09.nuts_run.ret', A, 'return', ev.ret_term, l2.lx[o], sp=sp, why='returns the filled buffer')
+    ctx.check('C09.fwd.nuts_init', A, 'fwd', contains(ev.t(l1.init[s1]), T.app('set:n_discard', nd)) and contains(ev.t(l1.init[s1]), T.app('set:n_collect', nc)),
+              expected='init_chain receives (n_collect, n_discard) in this order', found='…', sp=sp, why='swapped arguments change the warm-up length')
+    return True
 
 
 def nuts_run(ctx, nc, nd):
